@@ -714,3 +714,56 @@ Definition tables_ok : bool :=
   forallb converth_ok dialects && forallb default_ok DEFAULT_OUTFMT && ncols_ok && copyattrs_ok &&
   forallb header_names_ok dialects &&
   forallb (fun n => match find_hdr false n HEADER_mmseqs with Some _ => true | None => false end) MMSEQS_HEADER_NAMES.
+
+(* ---- rendering an abstract hit under an arbitrary column selection ---- *)
+(* the column _CONVERTH names for a BLAST-equivalent key ([] if none) *)
+Definition ccol (d : dialect) (k : str) : str := match cget (converth_of d) k with Some col => col | None => [] end.
+(* what the hit dictates for the columns it determines; a strand column (named sstrand in BLAST and Infernal) gets the sign *)
+Definition tok_table (d : dialect) (h : hit) : list (str * str) :=
+  [(ccol d (bs "sstart"%bs), dec_of_Z (h_sstart h)); (ccol d (bs "send"%bs), dec_of_Z (h_send h));
+   (ccol d (bs "qstart"%bs), dec_of_Z (h_qstart h)); (ccol d (bs "qend"%bs), dec_of_Z (h_qend h));
+   (ccol d (bs "sseqid"%bs), h_sseqid h); (ccol d (bs "qseqid"%bs), h_qseqid h);
+   (ccol d (bs "evalue"%bs), h_evalue h); (ccol d (bs "bitscore"%bs), h_bitscore h);
+   (bs "sstrand"%bs, strand_sign h)].
+(* the token of column hd in the row of hit h; every other column is a free token chosen by [free] *)
+Definition hit_tok (d : dialect) (free : str -> str) (h : hit) (hd : hdr) : str :=
+  match assoc (hname hd) (tok_table d h) with Some t => t | None => free (hname hd) end.
+Definition hit_row (d : dialect) (free : str -> str) (hs : list hdr) (h : hit) : list str := map (hit_tok d free h) hs.
+(* a column selection the readers accept and the property talks about: distinct names, every column is one of the
+   dialect's table with its declared type, and the eight required columns are present *)
+Definition sel_ok (d : dialect) (hs : list hdr) : bool :=
+  nodup_str (map hname hs) &&
+  forallb (fun hd => match find_hdr false (hname hd) (header_of d) with
+                     | Some hd' => coltype_eqb (htype hd') (htype hd)
+                     | None => false
+                     end) hs &&
+  forallb (fun kt => mem (ccol d (fst kt)) (map hname hs)) required_cols.
+(* a hit can be written under the selection: with a strand column it must have a direction (the column then says + or -) *)
+Definition hit_sel_ok (hs : list hdr) (h : hit) : bool :=
+  has_direction h || negb (mem (bs "sstrand"%bs) (map hname hs)).
+(* the columns the hit determines are pairwise different, and a strand column has type str (finite, per dialect) *)
+Definition cols_distinct (d : dialect) : bool :=
+  nodup_str (map (fun kt => ccol d (fst kt)) required_cols ++ [bs "sstrand"%bs]) &&
+  match find_hdr false (bs "sstrand"%bs) (header_of d) with Some hd => coltype_eqb (htype hd) TStr | None => true end.
+
+(* ---- BLAST outfmt 7 with several queries: one block of comments, '# Fields:' line, comments and rows per query ---- *)
+Record block := mkBlock { b_pre : list str; b_hs : list hdr; b_mid : list str; b_rows : list (list str) }.
+Definition block_lines (c : byte) (b : block) : list str :=
+  b_pre b ++ [fields_line (b_hs b)] ++ b_mid b ++ map (join c) (b_rows b).
+Definition block_ok (c : byte) (b : block) : Prop :=
+  b_hs b <> [] /\ forallb long_ok (map hlong (b_hs b)) = true /\
+  headers_from true Blast (map hlong (b_hs b)) = Ok (b_hs b) /\
+  forallb (skip_line Blast true true) (b_pre b) = true /\ forallb (skip_line Blast true true) (b_mid b) = true /\
+  forallb (row_ok Blast c) (b_rows b) = true.
+(* every block read with its own column list, first error wins *)
+Fixpoint blocks_features (ftype : option str) (bs : list block) : res (list feat) :=
+  match bs with
+  | [] => Ok []
+  | b :: r => match rows_features Blast ftype (b_hs b) (b_rows b) with
+              | Err e => Err e
+              | Ok fs => match blocks_features ftype r with Ok gs => Ok (fs ++ gs) | Err e => Err e end
+              end
+  end.
+(* ---- sep=None for BLAST / MMseqs2: rows of blank-free tokens separated by runs of blanks ---- *)
+Definition wsrow_simple_ok (d : dialect) (r : wsrow) : bool :=
+  wsrow_ok (S (length (w_cells r))) r && simple_tok (w_last r) && negb (mm_header_toks d (wsrow_toks r)).
